@@ -93,285 +93,7 @@ func (r *Run) innovSiteOf(name, kind string) *innovSite {
 func C03(p *Prog, r *Run) {
 	r.Explanation = "Decided per structural mutator (add-link, add-node, connect-sensors): (1) every created gene carries either a freshly issued number (one NextInnovationNumber call per gene, two distinct calls for the two genes of a split) or the number stored in the matched record (first gene InnovationNum, second InnovationNum2); new node ids are NextNodeId or the record's NewNodeId, role hidden; (2) the record is matched under the complete key (kind, in node id, out node id, recurrence flag resp. split gene's number), compared with the very values the new gene is built from, over a full scan of the list; (3) on the novel path exactly one record is stored, built from the same node ids, recurrence flag, numbers and node id just issued; (4) the counters are advanced only by atomic adds of a positive constant, written only when a population is created or read, initialised at or above the start genome's last number / id and only ever raised when reading; (5) both epoch executors forget the records on every non-error path of NextEpoch. Not decided: the induction over an unbounded run that these per-step conditions imply uniqueness."
 	sums := NewSummaries(p)
-	sites := []*innovSite{}
-	r.Rule("C03.1", "number provenance: fresh numbers and node ids come from the issuing calls, reused ones from the matched record (gene 1 <- InnovationNum, gene 2 <- InnovationNum2, node <- NewNodeId)", func() {
-		for _, x := range [][2]string{{"mutateAddLink", "link"}, {"mutateConnectSensors", "link"}, {"mutateAddNode", "node"}} {
-			s := r.innovSiteOf(x[0], x[1])
-			sites = append(sites, s)
-			wantN := 1
-			if s.kind == "node" {
-				wantN = 2
-			}
-			r.Check(len(s.reuse) == wantN && len(s.novel) == wantN, x[0]+".paths", p.Pos(s.fn.Pos()), fmt.Sprintf("%d gene(s) on the reuse path, %d on the novel path", len(s.reuse), len(s.novel)),
-				fmt.Sprintf("%s creates %d genes from a matched record and %d with fresh numbers; expected %d and %d", x[0], len(s.reuse), len(s.novel), wantN, wantN))
-			if s.kind == "node" && len(s.reuse) == 2 && len(s.novel) == 2 {
-				// order genes by their role: gene1 ends in the new node (arg 3 is a NewNNode call), gene2 starts there
-				role := func(gc geneCall) int {
-					if c, ok := gc.args[3].(*ssa.Call); ok && c.Call.StaticCallee() != nil && c.Call.StaticCallee().Name() == "NewNNode" {
-						return 1
-					}
-					return 2
-				}
-				f1, f2 := "", ""
-				for _, gc := range s.reuse {
-					f, _, _ := recordField(s.tm.Of(gc.args[5]))
-					if role(gc) == 1 {
-						f1 = f
-					} else {
-						f2 = f
-					}
-				}
-				r.Check(f1 == "InnovationNum" && f2 == "InnovationNum2", x[0]+".reuse.numbers", p.Pos(s.fn.Pos()), "a->n takes InnovationNum, n->b takes InnovationNum2",
-					fmt.Sprintf("on the reuse path the gene into the new node takes record field %q and the gene out of it %q; expected InnovationNum and InnovationNum2", f1, f2))
-				r.Check(s.novel[0].args[5] != s.novel[1].args[5], x[0]+".novel.numbers", p.Pos(s.fn.Pos()), "two distinct numbers are issued for the two genes", "both genes of a novel split carry the same freshly issued number")
-				// node ids
-				for _, gc := range append(append([]geneCall{}, s.reuse...), s.novel...) {
-					if role(gc) != 1 {
-						continue
-					}
-					nn := gc.args[3].(*ssa.Call)
-					idt := s.tm.Of(nn.Call.Args[0])
-					f, _, isRec := recordField(idt)
-					okId := isIfaceCall(nn.Call.Args[0], "NextNodeId") || (isRec && f == "NewNodeId")
-					isReuse := false
-					for _, q := range s.reuse {
-						if q.call == gc.call {
-							isReuse = true
-						}
-					}
-					if isReuse {
-						okId = isRec && f == "NewNodeId"
-					} else {
-						okId = isIfaceCall(nn.Call.Args[0], "NextNodeId")
-					}
-					r.Check(okId, x[0]+".node-id", p.Pos(nn.Pos()), "node id: fresh on the novel path, the record's NewNodeId on the reuse path", "the new node's id is "+idt.String())
-				}
-			} else if s.kind == "link" {
-				for _, gc := range s.reuse {
-					f, _, _ := recordField(s.tm.Of(gc.args[5]))
-					r.Check(f == "InnovationNum", x[0]+".reuse.number", p.Pos(gc.call.Pos()), "the reused number is the record's InnovationNum", "the reused gene takes record field "+f)
-				}
-			}
-		}
-		// NextNNode ids land in NNode.Id; NewNNode(id, role)
-		nn := p.Func(PkgN, "NewNNode")
-		sm := sums.Ctor(nn)
-		idT := sm.Fields[p.Field(PkgN, "NNode", "Id")]
-		ntT := sm.Fields[p.Field(PkgN, "NNode", "NeuronType")]
-		r.Check(sm.Why == "" && idT != nil && isParamIdx(idT, 0) && ntT != nil && isParamIdx(ntT, 1), "NewNNode", p.Pos(nn.Pos()), "NewNNode(id, role) stores both", fmt.Sprintf("NewNNode: Id=%v NeuronType=%v %s", idT, ntT, sm.Why))
-	})
-
-	r.Rule("C03.2", "reuse-guard completeness: a record is matched only under kind, in node id, out node id and recurrence flag (links) resp. the split gene's number (nodes), compared with the values the new gene is built from, scanning the whole list", func() {
-		for _, s := range sites {
-			name := s.fn.Name()
-			if s.innLoop == nil || len(s.reuse) == 0 {
-				r.Bad(name+".scan", p.Pos(s.fn.Pos()), "no scan of the recorded innovations precedes the creation of the gene")
-				continue
-			}
-			gc := s.reuse[0]
-			conds := loopGuardsOnly(Guards(gc.call.Block()), s.innLoop)
-			got := map[string]bool{}
-			var inV, outV, recV ssa.Value
-			if s.kind == "link" {
-				inV, outV, recV = gc.args[2], gc.args[3], gc.args[4]
-			} else {
-				for _, q := range s.reuse {
-					if _, ok := q.args[3].(*ssa.Call); ok {
-						inV = q.args[2]
-					} else {
-						outV = q.args[3]
-					}
-				}
-			}
-			wantType := "newLinkInnType"
-			if s.kind == "node" {
-				wantType = "newNodeInnType"
-			}
-			wantTypeVal := p.Const(PkgG, wantType).Val().ExactString()
-			var extra []string
-			for _, g := range conds {
-				if g.At == s.innLoop.Header {
-					continue
-				}
-				// boolean record field tested directly
-				if s.kind == "link" {
-					for _, want := range []bool{true, false} {
-						if boolFieldCond(s.tm, g, s.innAlloc, want, "IsRecurrent") {
-							if k, ok := recV.(*ssa.Const); ok && k.Value != nil && constant.BoolVal(k.Value) == want {
-								got["IsRecurrent"] = true
-							}
-						}
-					}
-				}
-				a, b, ok := eqCond(s.tm, g)
-				if !ok {
-					continue
-				}
-				for _, pr := range [][2]*Term{{a, b}, {b, a}} {
-					f, _, isRec := recordField(pr[0])
-					if !isRec {
-						continue
-					}
-					o := pr[1]
-					switch f {
-					case "innovationType":
-						if o.Op == "const" && o.Name == wantTypeVal {
-							got[f] = true
-						}
-					case "InNodeId":
-						if inV != nil && fieldChainOnWeb(o, inV, "Id") {
-							got[f] = true
-						}
-					case "OutNodeId":
-						if outV != nil && fieldChainOnWeb(o, outV, "Id") {
-							got[f] = true
-						}
-					case "IsRecurrent":
-						if recV != nil && (o.V == recV || fieldChainOnWeb(o, recV)) {
-							got[f] = true
-						} else if k, isK := recV.(*ssa.Const); isK && o.Op == "const" && k.Value != nil && o.Name == k.Value.ExactString() {
-							got[f] = true
-						}
-					case "OldInnovNum":
-						// the split gene: the base of the in-node value
-						if inV != nil {
-							it := s.tm.Of(inV)
-							if b0, path := it.FieldPath(); len(path) == 2 && path[0] == "Link" && b0 != nil && fieldChainOnWeb(o, b0.V, "InnovationNum") {
-								got[f] = true
-							}
-						}
-					default:
-						extra = append(extra, f)
-					}
-				}
-			}
-			need := []string{"innovationType", "InNodeId", "OutNodeId", "IsRecurrent"}
-			if s.kind == "node" {
-				need = []string{"innovationType", "InNodeId", "OutNodeId", "OldInnovNum"}
-			}
-			var missing []string
-			for _, f := range need {
-				if !got[f] {
-					missing = append(missing, f)
-				}
-			}
-			r.Check(len(missing) == 0, name+".reuse-key", p.Pos(gc.call.Pos()), "matched under "+strings.Join(need, ", "),
-				name+": a recorded innovation is reused without comparing "+strings.Join(missing, ", ")+" with the values of the gene being created: two different connections can receive the same innovation number")
-			// full scan: the loop is left only by exhaustion or through the block that creates the gene
-			okExit := true
-			for b := range s.innLoop.Blocks {
-				for _, sx := range b.Succs {
-					if s.innLoop.Blocks[sx] || b == s.innLoop.Header {
-						continue
-					}
-					if !(sx == gc.call.Block() || b == gc.call.Block() || gc.call.Block().Dominates(b)) {
-						okExit = false
-					}
-				}
-			}
-			r.Check(okExit, name+".full-scan", p.Pos(firstBlockPos(s.innLoop.Header)), "the list is scanned until a match or to the end", name+": the scan of the recorded innovations can stop before a matching record is reached: the same innovation gets a second number")
-			// the list scanned is the observer's current list
-		}
-		r.Floor("structural mutators", len(sites), 3)
-	})
-
-	r.Rule("C03.3", "novel innovations are recorded: exactly one StoreInnovation on the novel path whose record is built from the same node ids, recurrence flag, numbers and node id that were just used", func() {
-		for _, s := range sites {
-			name := s.fn.Name()
-			if s.storeCall == nil || s.recCtor == nil || len(s.novel) == 0 {
-				r.Bad(name+".record", p.Pos(s.fn.Pos()), "the novel path does not store a record built by an Innovation constructor")
-				continue
-			}
-			n := 0
-			Instrs(s.fn, func(_ *ssa.BasicBlock, _ int, in ssa.Instruction) {
-				if ci, ok := in.(ssa.CallInstruction); ok && ci.Common().IsInvoke() && ci.Common().Method.Name() == "StoreInnovation" {
-					n++
-				}
-			})
-			sameBlock := s.storeCall.Block() == s.novel[0].call.Block() || s.novel[0].call.Block().Dominates(s.storeCall.Block())
-			lps := Loops(s.fn)
-			r.Check(n == 1 && sameBlock && InnermostLoop(lps, s.storeCall.Block()) == InnermostLoop(lps, s.novel[0].call.Block()), name+".record.once", p.Pos(s.storeCall.Pos()), "one record per novel innovation, on the novel path",
-				fmt.Sprintf("%s stores %d records, or not on the path that issues the new number", name, n))
-			callee := s.recCtor.Call.StaticCallee()
-			if callee == nil {
-				r.Undecided(name+".record.ctor", p.Pos(s.recCtor.Pos()), "dynamic record constructor")
-				continue
-			}
-			r.Fn(FuncName(callee))
-			sm := sums.Ctor(callee)
-			if sm.Why != "" {
-				r.Undecided(name+".record.ctor", p.Pos(callee.Pos()), sm.Why)
-				continue
-			}
-			val := func(field string) (ssa.Value, *Term) {
-				t := sm.Fields[p.Field(PkgG, "Innovation", field)]
-				if t == nil {
-					return nil, nil
-				}
-				if t.Op == "param" && t.Idx < len(s.recCtor.Call.Args) {
-					return s.recCtor.Call.Args[t.Idx], s.tm.Of(s.recCtor.Call.Args[t.Idx])
-				}
-				return nil, t
-			}
-			var in1, out1, rec ssa.Value
-			var g1, g2 geneCall
-			if s.kind == "link" {
-				g1 = s.novel[0]
-				in1, out1, rec = g1.args[2], g1.args[3], g1.args[4]
-			} else {
-				for _, q := range s.novel {
-					if _, ok := q.args[3].(*ssa.Call); ok {
-						g1 = q
-					} else {
-						g2 = q
-					}
-				}
-				if g1.call == nil || g2.call == nil {
-					r.Undecided(name+".record.genes", p.Pos(s.fn.Pos()), "cannot tell the two genes of the split apart")
-					continue
-				}
-				in1, out1 = g1.args[2], g2.args[3]
-			}
-			_, tt := val("innovationType")
-			wantType := "newLinkInnType"
-			if s.kind == "node" {
-				wantType = "newNodeInnType"
-			}
-			r.Check(tt != nil && tt.Op == "const" && tt.Name == p.Const(PkgG, wantType).Val().ExactString(), name+".record.kind", p.Pos(s.recCtor.Pos()), "record kind "+wantType, fmt.Sprintf("the record's kind is %v, expected %s", tt, wantType))
-			_, it := val("InNodeId")
-			_, ot := val("OutNodeId")
-			r.Check(it != nil && fieldChainOnWeb(it, in1, "Id") && ot != nil && fieldChainOnWeb(ot, out1, "Id"), name+".record.nodes", p.Pos(s.recCtor.Pos()), "record holds the ids of the nodes the gene joins",
-				fmt.Sprintf("the stored record has InNodeId=%v OutNodeId=%v, which are not the ids of the in and out node of the created gene", it, ot))
-			nv, _ := val("InnovationNum")
-			r.Check(nv != nil && nv == g1.args[5], name+".record.number", p.Pos(s.recCtor.Pos()), "record holds the number given to the gene", "the stored record does not hold the innovation number that the new gene received")
-			if s.kind == "link" {
-				rv, rt := val("IsRecurrent")
-				okRec := rv != nil && rv == rec
-				if rv == nil {
-					// field not set by the constructor: the record says non-recurrent
-					k, isK := rec.(*ssa.Const)
-					okRec = rt == nil && isK && k.Value != nil && !constant.BoolVal(k.Value)
-					if rt != nil && rt.Op == "const" && isK && k.Value != nil {
-						okRec = rt.Name == k.Value.ExactString()
-					}
-				}
-				r.Check(okRec, name+".record.recurrence", p.Pos(s.recCtor.Pos()), "record holds the recurrence flag of the gene", "the stored record's IsRecurrent is not the recurrence flag the new gene was created with: a later lookup for the other kind of link between the same nodes matches it and reuses the number")
-			} else {
-				n2, _ := val("InnovationNum2")
-				r.Check(n2 != nil && n2 == g2.args[5], name+".record.number2", p.Pos(s.recCtor.Pos()), "record holds the second gene's number", "the stored record's InnovationNum2 is not the number the second gene received")
-				_, idt := val("NewNodeId")
-				node := g1.args[3]
-				okNode := idt != nil && (fieldChainOn(idt, node, "Id") || (len(node.(*ssa.Call).Call.Args) > 0 && idt.V == node.(*ssa.Call).Call.Args[0]))
-				r.Check(okNode, name+".record.node-id", p.Pos(s.recCtor.Pos()), "record holds the new node's id", fmt.Sprintf("the stored record's NewNodeId is %v, not the id of the node just created", idt))
-				_, old := val("OldInnovNum")
-				okOld := false
-				if b0, path := s.tm.Of(in1).FieldPath(); len(path) == 2 && b0 != nil && old != nil {
-					okOld = fieldChainOnWeb(old, b0.V, "InnovationNum")
-				}
-				r.Check(okOld, name+".record.old-number", p.Pos(s.recCtor.Pos()), "record holds the split gene's number", fmt.Sprintf("the stored record's OldInnovNum is %v, not the innovation number of the gene being split", old))
-			}
-		}
-	})
+	c03Core(p, r, sums)
 
 	r.Rule("C03.4", "counters: issued by atomic adds of a positive constant; written only at population creation/reading; start at or above the start genome's last number and node id; reading only raises them", func() {
 		r.c03Counters(sums)
@@ -716,4 +438,290 @@ func (r *Run) c03Reset() {
 		}
 	}
 	r.Check(len(others) == 0, "innovations.writers", "-", "the list is only appended to and emptied", "the innovation list is also rewritten by "+strings.Join(others, "; "))
+}
+
+// c03Core: number provenance, reuse-key completeness and novel records of the three structural mutators
+// (also evaluated by C16: the reproduction goroutines share this code and the guarantee must hold for every interleaving,
+// so a record may only hold numbers that were actually issued to the genes, never numbers derived by arithmetic).
+func c03Core(p *Prog, r *Run, sums *Summaries) {
+	sites := []*innovSite{}
+	r.Rule("C03.1", "number provenance: fresh numbers and node ids come from the issuing calls, reused ones from the matched record (gene 1 <- InnovationNum, gene 2 <- InnovationNum2, node <- NewNodeId)", func() {
+		for _, x := range [][2]string{{"mutateAddLink", "link"}, {"mutateConnectSensors", "link"}, {"mutateAddNode", "node"}} {
+			s := r.innovSiteOf(x[0], x[1])
+			sites = append(sites, s)
+			wantN := 1
+			if s.kind == "node" {
+				wantN = 2
+			}
+			r.Check(len(s.reuse) == wantN && len(s.novel) == wantN, x[0]+".paths", p.Pos(s.fn.Pos()), fmt.Sprintf("%d gene(s) on the reuse path, %d on the novel path", len(s.reuse), len(s.novel)),
+				fmt.Sprintf("%s creates %d genes from a matched record and %d with fresh numbers; expected %d and %d", x[0], len(s.reuse), len(s.novel), wantN, wantN))
+			if s.kind == "node" && len(s.reuse) == 2 && len(s.novel) == 2 {
+				// order genes by their role: gene1 ends in the new node (arg 3 is a NewNNode call), gene2 starts there
+				role := func(gc geneCall) int {
+					if c, ok := gc.args[3].(*ssa.Call); ok && c.Call.StaticCallee() != nil && c.Call.StaticCallee().Name() == "NewNNode" {
+						return 1
+					}
+					return 2
+				}
+				f1, f2 := "", ""
+				for _, gc := range s.reuse {
+					f, _, _ := recordField(s.tm.Of(gc.args[5]))
+					if role(gc) == 1 {
+						f1 = f
+					} else {
+						f2 = f
+					}
+				}
+				r.Check(f1 == "InnovationNum" && f2 == "InnovationNum2", x[0]+".reuse.numbers", p.Pos(s.fn.Pos()), "a->n takes InnovationNum, n->b takes InnovationNum2",
+					fmt.Sprintf("on the reuse path the gene into the new node takes record field %q and the gene out of it %q; expected InnovationNum and InnovationNum2", f1, f2))
+				r.Check(s.novel[0].args[5] != s.novel[1].args[5], x[0]+".novel.numbers", p.Pos(s.fn.Pos()), "two distinct numbers are issued for the two genes", "both genes of a novel split carry the same freshly issued number")
+				// node ids
+				for _, gc := range append(append([]geneCall{}, s.reuse...), s.novel...) {
+					if role(gc) != 1 {
+						continue
+					}
+					nn := gc.args[3].(*ssa.Call)
+					idt := s.tm.Of(nn.Call.Args[0])
+					f, _, isRec := recordField(idt)
+					okId := isIfaceCall(nn.Call.Args[0], "NextNodeId") || (isRec && f == "NewNodeId")
+					isReuse := false
+					for _, q := range s.reuse {
+						if q.call == gc.call {
+							isReuse = true
+						}
+					}
+					if isReuse {
+						okId = isRec && f == "NewNodeId"
+					} else {
+						okId = isIfaceCall(nn.Call.Args[0], "NextNodeId")
+					}
+					r.Check(okId, x[0]+".node-id", p.Pos(nn.Pos()), "node id: fresh on the novel path, the record's NewNodeId on the reuse path", "the new node's id is "+idt.String())
+				}
+			} else if s.kind == "link" {
+				for _, gc := range s.reuse {
+					f, _, _ := recordField(s.tm.Of(gc.args[5]))
+					r.Check(f == "InnovationNum", x[0]+".reuse.number", p.Pos(gc.call.Pos()), "the reused number is the record's InnovationNum", "the reused gene takes record field "+f)
+				}
+			}
+		}
+		// NextNNode ids land in NNode.Id; NewNNode(id, role)
+		nn := p.Func(PkgN, "NewNNode")
+		sm := sums.Ctor(nn)
+		idT := sm.Fields[p.Field(PkgN, "NNode", "Id")]
+		ntT := sm.Fields[p.Field(PkgN, "NNode", "NeuronType")]
+		r.Check(sm.Why == "" && idT != nil && isParamIdx(idT, 0) && ntT != nil && isParamIdx(ntT, 1), "NewNNode", p.Pos(nn.Pos()), "NewNNode(id, role) stores both", fmt.Sprintf("NewNNode: Id=%v NeuronType=%v %s", idT, ntT, sm.Why))
+	})
+
+	r.Rule("C03.2", "reuse-guard completeness: a record is matched only under kind, in node id, out node id and recurrence flag (links) resp. the split gene's number (nodes), compared with the values the new gene is built from, scanning the whole list", func() {
+		for _, s := range sites {
+			name := s.fn.Name()
+			if s.innLoop == nil || len(s.reuse) == 0 {
+				r.Bad(name+".scan", p.Pos(s.fn.Pos()), "no scan of the recorded innovations precedes the creation of the gene")
+				continue
+			}
+			gc := s.reuse[0]
+			conds := loopGuardsOnly(Guards(gc.call.Block()), s.innLoop)
+			got := map[string]bool{}
+			var inV, outV, recV ssa.Value
+			if s.kind == "link" {
+				inV, outV, recV = gc.args[2], gc.args[3], gc.args[4]
+			} else {
+				for _, q := range s.reuse {
+					if _, ok := q.args[3].(*ssa.Call); ok {
+						inV = q.args[2]
+					} else {
+						outV = q.args[3]
+					}
+				}
+			}
+			wantType := "newLinkInnType"
+			if s.kind == "node" {
+				wantType = "newNodeInnType"
+			}
+			wantTypeVal := p.Const(PkgG, wantType).Val().ExactString()
+			var extra []string
+			for _, g := range conds {
+				if g.At == s.innLoop.Header {
+					continue
+				}
+				// boolean record field tested directly
+				if s.kind == "link" {
+					for _, want := range []bool{true, false} {
+						if boolFieldCond(s.tm, g, s.innAlloc, want, "IsRecurrent") {
+							if k, ok := recV.(*ssa.Const); ok && k.Value != nil && constant.BoolVal(k.Value) == want {
+								got["IsRecurrent"] = true
+							}
+						}
+					}
+				}
+				a, b, ok := eqCond(s.tm, g)
+				if !ok {
+					continue
+				}
+				for _, pr := range [][2]*Term{{a, b}, {b, a}} {
+					f, _, isRec := recordField(pr[0])
+					if !isRec {
+						continue
+					}
+					o := pr[1]
+					switch f {
+					case "innovationType":
+						if o.Op == "const" && o.Name == wantTypeVal {
+							got[f] = true
+						}
+					case "InNodeId":
+						if inV != nil && fieldChainOnWeb(o, inV, "Id") {
+							got[f] = true
+						}
+					case "OutNodeId":
+						if outV != nil && fieldChainOnWeb(o, outV, "Id") {
+							got[f] = true
+						}
+					case "IsRecurrent":
+						if recV != nil && (o.V == recV || fieldChainOnWeb(o, recV)) {
+							got[f] = true
+						} else if k, isK := recV.(*ssa.Const); isK && o.Op == "const" && k.Value != nil && o.Name == k.Value.ExactString() {
+							got[f] = true
+						}
+					case "OldInnovNum":
+						// the split gene: the base of the in-node value
+						if inV != nil {
+							it := s.tm.Of(inV)
+							if b0, path := it.FieldPath(); len(path) == 2 && path[0] == "Link" && b0 != nil && fieldChainOnWeb(o, b0.V, "InnovationNum") {
+								got[f] = true
+							}
+						}
+					default:
+						extra = append(extra, f)
+					}
+				}
+			}
+			need := []string{"innovationType", "InNodeId", "OutNodeId", "IsRecurrent"}
+			if s.kind == "node" {
+				need = []string{"innovationType", "InNodeId", "OutNodeId", "OldInnovNum"}
+			}
+			var missing []string
+			for _, f := range need {
+				if !got[f] {
+					missing = append(missing, f)
+				}
+			}
+			r.Check(len(missing) == 0, name+".reuse-key", p.Pos(gc.call.Pos()), "matched under "+strings.Join(need, ", "),
+				name+": a recorded innovation is reused without comparing "+strings.Join(missing, ", ")+" with the values of the gene being created: two different connections can receive the same innovation number")
+			// full scan: the loop is left only by exhaustion or through the block that creates the gene
+			okExit := true
+			for b := range s.innLoop.Blocks {
+				for _, sx := range b.Succs {
+					if s.innLoop.Blocks[sx] || b == s.innLoop.Header {
+						continue
+					}
+					if !(sx == gc.call.Block() || b == gc.call.Block() || gc.call.Block().Dominates(b)) {
+						okExit = false
+					}
+				}
+			}
+			r.Check(okExit, name+".full-scan", p.Pos(firstBlockPos(s.innLoop.Header)), "the list is scanned until a match or to the end", name+": the scan of the recorded innovations can stop before a matching record is reached: the same innovation gets a second number")
+			// the list scanned is the observer's current list
+		}
+		r.Floor("structural mutators", len(sites), 3)
+	})
+
+	r.Rule("C03.3", "novel innovations are recorded: exactly one StoreInnovation on the novel path whose record is built from the same node ids, recurrence flag, numbers and node id that were just used", func() {
+		for _, s := range sites {
+			name := s.fn.Name()
+			if s.storeCall == nil || s.recCtor == nil || len(s.novel) == 0 {
+				r.Bad(name+".record", p.Pos(s.fn.Pos()), "the novel path does not store a record built by an Innovation constructor")
+				continue
+			}
+			n := 0
+			Instrs(s.fn, func(_ *ssa.BasicBlock, _ int, in ssa.Instruction) {
+				if ci, ok := in.(ssa.CallInstruction); ok && ci.Common().IsInvoke() && ci.Common().Method.Name() == "StoreInnovation" {
+					n++
+				}
+			})
+			sameBlock := s.storeCall.Block() == s.novel[0].call.Block() || s.novel[0].call.Block().Dominates(s.storeCall.Block())
+			lps := Loops(s.fn)
+			r.Check(n == 1 && sameBlock && InnermostLoop(lps, s.storeCall.Block()) == InnermostLoop(lps, s.novel[0].call.Block()), name+".record.once", p.Pos(s.storeCall.Pos()), "one record per novel innovation, on the novel path",
+				fmt.Sprintf("%s stores %d records, or not on the path that issues the new number", name, n))
+			callee := s.recCtor.Call.StaticCallee()
+			if callee == nil {
+				r.Undecided(name+".record.ctor", p.Pos(s.recCtor.Pos()), "dynamic record constructor")
+				continue
+			}
+			r.Fn(FuncName(callee))
+			sm := sums.Ctor(callee)
+			if sm.Why != "" {
+				r.Undecided(name+".record.ctor", p.Pos(callee.Pos()), sm.Why)
+				continue
+			}
+			val := func(field string) (ssa.Value, *Term) {
+				t := sm.Fields[p.Field(PkgG, "Innovation", field)]
+				if t == nil {
+					return nil, nil
+				}
+				if t.Op == "param" && t.Idx < len(s.recCtor.Call.Args) {
+					return s.recCtor.Call.Args[t.Idx], s.tm.Of(s.recCtor.Call.Args[t.Idx])
+				}
+				return nil, t
+			}
+			var in1, out1, rec ssa.Value
+			var g1, g2 geneCall
+			if s.kind == "link" {
+				g1 = s.novel[0]
+				in1, out1, rec = g1.args[2], g1.args[3], g1.args[4]
+			} else {
+				for _, q := range s.novel {
+					if _, ok := q.args[3].(*ssa.Call); ok {
+						g1 = q
+					} else {
+						g2 = q
+					}
+				}
+				if g1.call == nil || g2.call == nil {
+					r.Undecided(name+".record.genes", p.Pos(s.fn.Pos()), "cannot tell the two genes of the split apart")
+					continue
+				}
+				in1, out1 = g1.args[2], g2.args[3]
+			}
+			_, tt := val("innovationType")
+			wantType := "newLinkInnType"
+			if s.kind == "node" {
+				wantType = "newNodeInnType"
+			}
+			r.Check(tt != nil && tt.Op == "const" && tt.Name == p.Const(PkgG, wantType).Val().ExactString(), name+".record.kind", p.Pos(s.recCtor.Pos()), "record kind "+wantType, fmt.Sprintf("the record's kind is %v, expected %s", tt, wantType))
+			_, it := val("InNodeId")
+			_, ot := val("OutNodeId")
+			r.Check(it != nil && fieldChainOnWeb(it, in1, "Id") && ot != nil && fieldChainOnWeb(ot, out1, "Id"), name+".record.nodes", p.Pos(s.recCtor.Pos()), "record holds the ids of the nodes the gene joins",
+				fmt.Sprintf("the stored record has InNodeId=%v OutNodeId=%v, which are not the ids of the in and out node of the created gene", it, ot))
+			nv, _ := val("InnovationNum")
+			r.Check(nv != nil && nv == g1.args[5], name+".record.number", p.Pos(s.recCtor.Pos()), "record holds the number given to the gene", "the stored record does not hold the innovation number that the new gene received")
+			if s.kind == "link" {
+				rv, rt := val("IsRecurrent")
+				okRec := rv != nil && rv == rec
+				if rv == nil {
+					// field not set by the constructor: the record says non-recurrent
+					k, isK := rec.(*ssa.Const)
+					okRec = rt == nil && isK && k.Value != nil && !constant.BoolVal(k.Value)
+					if rt != nil && rt.Op == "const" && isK && k.Value != nil {
+						okRec = rt.Name == k.Value.ExactString()
+					}
+				}
+				r.Check(okRec, name+".record.recurrence", p.Pos(s.recCtor.Pos()), "record holds the recurrence flag of the gene", "the stored record's IsRecurrent is not the recurrence flag the new gene was created with: a later lookup for the other kind of link between the same nodes matches it and reuses the number")
+			} else {
+				n2, _ := val("InnovationNum2")
+				r.Check(n2 != nil && n2 == g2.args[5], name+".record.number2", p.Pos(s.recCtor.Pos()), "record holds the second gene's number", "the stored record's InnovationNum2 is not the number the second gene received")
+				_, idt := val("NewNodeId")
+				node := g1.args[3]
+				okNode := idt != nil && (fieldChainOn(idt, node, "Id") || (len(node.(*ssa.Call).Call.Args) > 0 && idt.V == node.(*ssa.Call).Call.Args[0]))
+				r.Check(okNode, name+".record.node-id", p.Pos(s.recCtor.Pos()), "record holds the new node's id", fmt.Sprintf("the stored record's NewNodeId is %v, not the id of the node just created", idt))
+				_, old := val("OldInnovNum")
+				okOld := false
+				if b0, path := s.tm.Of(in1).FieldPath(); len(path) == 2 && b0 != nil && old != nil {
+					okOld = fieldChainOnWeb(old, b0.V, "InnovationNum")
+				}
+				r.Check(okOld, name+".record.old-number", p.Pos(s.recCtor.Pos()), "record holds the split gene's number", fmt.Sprintf("the stored record's OldInnovNum is %v, not the innovation number of the gene being split", old))
+			}
+		}
+	})
+
 }
